@@ -51,9 +51,9 @@ def mc_configs(tier):
         return {
             "upd": dict(base, NH=3, MaxT=4, TP=3, MaxHH=4, DTS={0, 1}, ROOTIDS={"r1", "r2"}, NVS={"V"}, VSS={"V"}, PLANS={"up"},
                         SUBDIFFS=set(), MISB=False, MAXCL=1),
-            "rec": dict(base, NH=3, MaxT=4, TP=2, MaxHH=5, DTS={0, 1}, ROOTIDS={"r1"}, NVS={"V"}, VSS={"V"}, PLANS=set(),
+            "rec": dict(base, NH=3, MaxT=3, TP=2, MaxHH=4, DTS={0, 1}, ROOTIDS={"r1"}, NVS={"V"}, VSS={"V"}, PLANS=set(),
                         SUBDIFFS={"none", "lvl"}, MISB=False, MAXCL=2),
-            "hdr": dict(base, NH=5, MaxT=4, TP=3, MaxHH=2, DTS={0, 1}, ROOTIDS={"r1"}, NVS={"V", "W"}, VSS={"V", "W", "U"}, PLANS=set(),
+            "hdr": dict(base, NH=3, MaxT=3, TP=3, MaxHH=2, DTS={0, 1}, ROOTIDS={"r1"}, NVS={"V", "W"}, VSS={"V", "W", "U"}, PLANS=set(),
                         SUBDIFFS=set(), MISB=False, MAXCL=1),
         }
     return {
@@ -61,11 +61,11 @@ def mc_configs(tier):
                     SUBDIFFS=set(), MISB=False, MAXCL=1),
         "misb": dict(base, NH=2, MaxT=4, TP=3, MaxHH=4, DTS={0, 1}, ROOTIDS={"r1", "r2"}, NVS={"V"}, VSS={"V"}, PLANS=set(),
                      SUBDIFFS=set(), MISB=True, MAXCL=1),
-        "rec": dict(base, NH=3, MaxT=5, TP=2, MaxHH=6, DTS={0, 1}, ROOTIDS={"r1"}, NVS={"V"}, VSS={"V"}, PLANS=set(),
+        "rec": dict(base, NH=3, MaxT=4, TP=2, MaxHH=5, DTS={0, 1}, ROOTIDS={"r1"}, NVS={"V"}, VSS={"V"}, PLANS=set(),
                     SUBDIFFS={"none", "lvl", "tp"}, MISB=False, MAXCL=2),
-        "hdr": dict(base, NH=5, MaxT=5, TP=3, MaxHH=3, DTS={0, 1}, ROOTIDS={"r1"}, NVS={"V", "W"}, VSS={"V", "W", "U"}, PLANS=set(),
+        "hdr": dict(base, NH=4, MaxT=4, TP=3, MaxHH=3, DTS={0, 1}, ROOTIDS={"r1"}, NVS={"V", "W"}, VSS={"V", "W", "U"}, PLANS=set(),
                     SUBDIFFS=set(), MISB=False, MAXCL=1),
-        "hdr23": dict(base, LN=2, LD=3, NH=5, MaxT=4, TP=3, MaxHH=2, DTS={0, 1}, ROOTIDS={"r1"}, NVS={"V", "W"}, VSS={"V", "W", "U"},
+        "hdr23": dict(base, LN=2, LD=3, NH=3, MaxT=3, TP=3, MaxHH=2, DTS={0, 1}, ROOTIDS={"r1"}, NVS={"V", "W"}, VSS={"V", "W", "U"},
                       PLANS=set(), SUBDIFFS=set(), MISB=False, MAXCL=1),
     }
 
@@ -91,6 +91,9 @@ def run_mc(tier, result, errors):
         d = vk.scratch_spec(SPEC_DIR)
         out = {}
         cfgs = mc_configs(tier)
+        only = os.environ.get("VERIF_TM_MC")
+        if only:
+            cfgs = {k: v for k, v in cfgs.items() if k in only.split(",")}
 
         def one(name):
             c = cfgs[name]
@@ -152,38 +155,42 @@ def gen_walks(tier, seed, workdir):
     return scheds
 
 
-def gen_cases(tier, workdir, levels, kinds=("hdr", "misb", "rec", "upg"), tag="cases"):
-    """Case tables enumerated by TLC.  rec / upg do not depend on the trust level and are taken from the first level."""
+def gen_cases(tier, workdir):
+    """Case tables enumerated by TLC: header vectors for every trust level (the table of HIGH_LEVEL is the dedicated
+    probe of KF-C24-1, ids prefixed "p"); misbehaviour / recover / upgrade tables do not depend on the trust level
+    and are taken from the first level."""
     sz = sizes(tier)
     d = vk.scratch_spec(SPEC_DIR)
     counts = {}
+    levels = LEVELS + [HIGH_LEVEL]
 
     def one(item):
         n, (ln, ld) = item
-        outdir = os.path.join(workdir, "%s_%d%d" % (tag, ln, ld))
+        probe = (ln, ld) == HIGH_LEVEL
+        outdir = os.path.join(workdir, "cases_%d%d" % (ln, ld))
         os.makedirs(outdir, exist_ok=True)
-        cfg = os.path.join(d, "Cases_%s_%d%d.cfg" % (tag, ln, ld))
-        vk.write_cfg(cfg, "Spec", dict(STD, NH=8, MaxT=200, LN=ln, LD=ld, OutDir=outdir, K=sz["K"]))
+        cfg = os.path.join(d, "Cases_%d%d.cfg" % (ln, ld))
+        vk.write_cfg(cfg, "Spec", dict(STD, NH=8, MaxT=200, LN=ln, LD=ld, OutDir=outdir, K=1 if probe else sz["K"]))
         r = vk.tlc_mc(d, "Cases_TMClient", cfg, workers=1, timeout=900)
-        out = []
+        kinds = ("hdr", "misb", "rec", "upg") if n == 0 else ("hdr",)
         for m in re.finditer(r'<<"CASES", "(\w+)", (\d+), (\d+)>>', r["out"]):
-            counts["%s-%d%d" % (m.group(1), ln, ld)] = {"cases": int(m.group(2)), "accepted_by_spec": int(m.group(3))}
+            if m.group(1) in kinds:
+                counts["%s-%d%d" % (m.group(1), ln, ld)] = {"cases": int(m.group(2)), "accepted_by_spec": int(m.group(3))}
+        out = []
         for kind in kinds:
-            if kind in ("rec", "upg", "misb") and n > 0:
-                continue
             cases = json.load(open(os.path.join(outdir, "cases_%s.json" % kind)))
             for i, c in enumerate(cases):
-                c["id"] = "%s%d%d.%d" % (kind[0], ln, ld, i)
+                c["id"] = "%s%s%d%d.%d" % ("p" if probe else "", kind[0], ln, ld, i)
                 c["lvl"] = [ln, ld]
+                if probe:
+                    c["kind"] = "probe"
                 out.append(c)
         return out
     scheds = []
-    for lst in vk.pmap(one, list(enumerate(levels)), 2):
+    for lst in vk.pmap(one, list(enumerate(levels)), 3):
         scheds.extend(lst)
     shutil.rmtree(d, ignore_errors=True)
     for k, v in counts.items():
-        if k.split("-")[0] not in kinds:
-            continue
         if v["cases"] == 0 or v["accepted_by_spec"] in (0, v["cases"]):
             raise vk.Infra("vacuous case table %s: %s" % (k, v))
     return scheds, counts
@@ -330,8 +337,12 @@ FLOORS = {
 
 # ------------------------------------------------------------------------------------------ known findings
 
-def _open_ids():
-    return {k.get("id") for k in vk.known_findings() if k.get("status", "open") == "open"}
+def _kf_status(kid):
+    """open (listed or still a candidate) | fixed: a fixed entry excludes nothing, the class is judged like any other input."""
+    for k in vk.known_findings():
+        if k.get("id") == kid:
+            return k.get("status", "open")
+    return "open"
 
 
 def in_class_kf_c24_1(sched, step):
@@ -353,14 +364,14 @@ def in_class_kf_c24_1(sched, step):
         return False
     hd = a["hd"]
     adj = hd["h"][0] == hd["th"][0] and (hd["th"][1], hd["h"][1]) in ((1, 2), (2, 3), (4, 5))
-    members = {"V": 4, "W": 4, "X": 4, "U": 7}.get(hd["vs"], 0)
+    members = {"V": 4, "W": 4, "X": 4, "U": 7, "Y": 4, "Z": 1}.get(hd["vs"], 0)
     signed = len(hd["sg"])
     return adj and hd["vs"] == hd["tvs"] and 3 * signed > 2 * members and signed * lvl[1] < lvl[0] * members
 
 
 def match_known(fail, schedule, known):
     tr, step, prop, clause = fail
-    if prop == "C24" and clause == "ok:trust-power-low" and in_class_kf_c24_1(schedule, step):
+    if prop == "C24" and clause == "ok:trust-power-low" and _kf_status("KF-C24-1") == "open" and in_class_kf_c24_1(schedule, step):
         for k in known:
             if k.get("id") == "KF-C24-1":
                 return k
@@ -370,34 +381,25 @@ def match_known(fail, schedule, known):
 
 def probe_known(pid, known, result):
     lines = []
-    if pid == "C24":
+    if pid == "C24" and _kf_status("KF-C24-1") == "open":
         p = result.get("probes", {}).get("KF-C24-1")
         if p and p.get("reproduced"):
-            lines.append("KNOWN-FINDING: property=C24 id=KF-C24-1 %s (%d of %d probe cases; e.g. %s)" % (
+            lines.append("KNOWN-FINDING: property=C24 id=KF-C24-1 %s (%d of %d probe cases in the class; e.g. %s)" % (
                 CANDIDATES["KF-C24-1"]["what"], p["reproduced"], p["cases"], p.get("example")))
         elif p:
-            lines.append("NOTICE: property=C24 id=KF-C24-1 no longer reproduces (%d probe cases)" % p["cases"])
+            lines.append("NOTICE: property=C24 id=KF-C24-1 no longer reproduces (%d probe cases in the class)" % p["cases"])
     return lines
 
 
-def run_probes(binary, tier, workdir):
-    """Dedicated probe of KF-C24-1: the header table for a client with trust level 1/1; only steps inside the
-    input class are attributed to the finding, every other monitor failure of the probe batch is reported normally."""
-    scheds, _ = gen_cases("quick", workdir, [HIGH_LEVEL], kinds=("hdr",), tag="probe")
-    for s in scheds:
-        s["id"] = "p" + s["id"]
-        s["kind"] = "probe"
-    lines = drive(binary, scheds, workdir, "probe", 4)
-    fails, steps = validate(lines, workdir, "probe", STD["UBD0"])
+def probe_summary(scheds, fails):
     by_id = {s["id"]: s for s in scheds}
-    inclass = [f for f in fails if f[2] == "C24" and match_known(f, by_id.get(f[0]), [])]
-    other = [f for f in fails if f not in inclass]
-    n_class = sum(1 for s in scheds if in_class_kf_c24_1(s, len(s["acts"])))
+    inclass = [f for f in fails if f[2] == "C24" and f[3] == "ok:trust-power-low" and in_class_kf_c24_1(by_id.get(f[0]), f[1])]
+    n_class = sum(1 for s in scheds if s.get("kind") == "probe" and in_class_kf_c24_1(s, len(s["acts"])))
     ex = None
     if inclass:
-        s = by_id[inclass[0][0]]
-        ex = json.dumps({"client_trust_level": s["lvl"], "header": s["acts"][-1]["hd"]}, sort_keys=True)
-    return {"KF-C24-1": {"cases": n_class, "reproduced": len(inclass), "example": ex}}, other, scheds, lines, steps
+        sc = by_id[inclass[0][0]]
+        ex = json.dumps({"client_trust_level": sc["lvl"], "header": sc["acts"][inclass[0][1] - 1]["hd"]}, sort_keys=True)
+    return {"KF-C24-1": {"cases": n_class, "reproduced": len(inclass), "example": ex}}
 
 
 # ------------------------------------------------------------------------------------------ family run
@@ -413,21 +415,19 @@ def run_family(tier, seed, binary=None):
     if binary is None:
         binary = vk.build_harness("tmclient")
     walks = gen_walks(tier, seed, workdir)
-    cases, counts = gen_cases(tier, workdir, LEVELS)
+    cases, counts = gen_cases(tier, workdir)
     scheds = walks + cases
     vk.log("generated %d walks + %d cases in %.1fs" % (len(walks), len(cases), time.time() - t0))
     lines = drive(binary, scheds, workdir, "main", sizes(tier)["shards"])
     vk.log("drove %d schedules (%.1fs)" % (len(scheds), time.time() - t0))
     fails, steps = validate(lines, workdir, "main", STD["UBD0"])
-    probes, pfails, pscheds, plines, psteps = run_probes(binary, tier, workdir)
-    fails = fails + pfails
-    steps += psteps
     vk.log("validated %d steps, %d monitor failures (%.1fs)" % (steps, len(fails), time.time() - t0))
     th.join()
     if errors:
         raise errors[0]
-    by_id = {s["id"]: s for s in scheds + pscheds}
-    cov, sigs = coverage_of(lines + plines, by_id)
+    probes = probe_summary(scheds, fails)
+    by_id = {s["id"]: s for s in scheds}
+    cov, sigs = coverage_of(lines, by_id)
     sanity = [f for f in fails if f[2] == "X"]
     if sanity:
         raise vk.Infra("harness sanity monitors failed (infrastructure): %s" % sanity[:5])
@@ -441,7 +441,7 @@ def run_family(tier, seed, binary=None):
                   "trace_prefix": [slim(json.loads(l)) for l in lines[0][:7] if json.loads(l)["tr"] == first]}
     conf = collections.Counter(f[3] for f in fails if f[2] == "CONF")
     diag21 = collections.Counter(f[3] for f in fails if f[2] == "C21")
-    result.update({"tier": tier, "seed": seed, "traces": len(scheds) + len(pscheds), "steps": steps,
+    result.update({"tier": tier, "seed": seed, "traces": len(scheds), "steps": steps,
                    "fails": [f for f in fails if f[2] in PROPS],
                    "diagnostics": {"CONF": dict(conf), "C21": dict(diag21)},
                    "coverage": dict(cov), "sigs": sigs, "failing_schedules": failing, "sample": sample,
